@@ -43,7 +43,7 @@ def parseOp (j : Json) : Except String Op := do
   | "cfile" => do
     let how ← match ← (at_ a 1).getStr? with
       | "delete" => pure FileDamage.delete | "empty" => pure .empty | "text" => pure .text
-      | "header" => pure .header | k => throw s!"bad-damage {k}"
+      | "header" => pure .header | "freelist" => pure .freelist | k => throw s!"bad-damage {k}"
     pure (.corruptFile how)
   | "foreign" => pure (.foreignWrite (← (at_ a 1).getNat?) (← (at_ a 2).getNat?) (← (at_ a 3).getInt?))
   | k => throw s!"bad-op {k}"
